@@ -3,6 +3,7 @@
 //@ item src/lib.rs struct RuleGroup
 //@ item src/lib.rs fn parse_rule_groups
 //@ item src/lib.rs fn run
+//@ item src/lib.rs fn run_trace_wasm
 
 //@ pre
 // ---- R6: the lexer and parser are opaque; each line's outcome is an arbitrary function of (text, group, line)
@@ -182,4 +183,35 @@ proof fn lemma_flatten_is_all_rules(v: Seq<Vec<Rule>>, gs: Seq<RuleGroup>, k: in
         }
     }
     assert(a =~= b);
+//@ end
+
+// =================================================================== run_trace_wasm (the traced entry point of the web UI)
+//@ pre
+pub uninterp spec fn trace_phrase_spec(unparsed: Seq<String>, alias_into: Seq<Transformation>, trace_index: usize) -> Result<Option<Phrase>, Error>;
+pub uninterp spec fn trace_render_spec(original: Phrase, changes: Seq<Change>, rules: Seq<RuleGroup>) -> Vec<String>;
+#[verifier::external_body]
+fn get_trace_phrase(unparsed_phrases: &[String], alias_into: &[Transformation], trace_index: usize) -> (r: Result<Option<Phrase>, Error>)
+    ensures r == trace_phrase_spec(unparsed_phrases@, alias_into@, trace_index),
+{ unimplemented!() }
+/// R6 stub WITH the precondition its body needs: the only index expression in trace_to_string is
+/// `rules[change.rule_index].name` (src/lib.rs), so every reported index must name an existing group
+#[verifier::external_body]
+fn trace_to_string(original: &Phrase, changes: Vec<Change>, rules: &[RuleGroup]) -> (r: Vec<String>)
+    requires /*#trace.reported_index_names_an_existing_group C16*/ forall|m: int| 0 <= m < changes@.len() ==> (#[trigger] changes@[m]).rule_index < rules@.len(),
+    ensures r == trace_render_spec(*original, changes@, rules@),
+{ unimplemented!() }
+//@ end
+//@ contract run_trace_wasm ret=r
+    ensures
+        /*#trace.api_errors_are_reported C16*/ (aliases_spec(alias_into@, alias_from@) is Err || !all_lines_ok(unparsed_rules@)) ==> r is Err,
+        r is Ok ==> all_lines_ok(unparsed_rules@),
+//@ end
+//@ proof_before_tail run_trace_wasm
+    law_trace_indices_increasing(rules@, pv(phrase), rules@.len() as int);
+    assert(rules@.len() == unparsed_rules@.len());
+    assert forall|m: int| 0 <= m < res@.len() implies (#[trigger] res@[m]).rule_index < unparsed_rules@.len() by {
+        reveal(changes_match);
+        let t = trace_spec(rules@, pv(phrase), rules@.len() as int);
+        assert(res@[m].rule_index as int == t[m].0);
+    }
 //@ end
